@@ -23,8 +23,8 @@ Record def : Type := mkDef { d_kind : defkind; d_sig : nat; d_label : nat }.
 
 (* how the execution of a class statement can fail *)
 Inductive cerr : Type :=
-| EName      (* AttributeError: 'function' object has no attribute 'name' (to_ovld of a plain function returns the
-                dispatch *function*, and __setitem__ then reads prev.name) *)
+| EName      (* AttributeError: 'function' object has no attribute 'name' -- raised before the repair of KF-41
+                (to_ovld of a plain function returned the dispatch function); no longer produced by the model *)
 | ENotOvld   (* TypeError: @ovld requires Ovld instance (the name is bound to a plain function) *)
 | ELocked    (* "locked for modifications" *)
 | EOther.    (* Invalid / Stuck of the graph model: unreachable from well-formed inputs *)
@@ -125,7 +125,10 @@ Definition cd_setitem (g : graph) (bases : list attr) (cur : attr) (d : def) : c
   | DExt =>
       cbind (cd_fresh g sig l) (fun g1 N =>
       match cur with
-      | APlain _ _ => CFail EName
+      | APlain s0 l0 =>
+          (* to_ovld wraps the plain function into a fresh Ovld p; the marked function becomes a mixin of p *)
+          cbind (cd_fresh g1 s0 l0) (fun g2 p =>
+          cbind (cd_add_mixins g2 p [N]) (fun g3 _ => COk g3 (AOvld p false)))
       | AOvld n f => cbind (cd_add_mixins g1 n [N]) (fun g2 _ => COk g2 (AOvld n f))
       | ANone =>
           cbind (cd_base_mixins g1 bases) (fun g2 ms =>
@@ -199,7 +202,8 @@ Definition extend_dom (body : list def) : bool :=
   | [] => false
   end.
 
-(* KF-41: plain def directly followed (as second definition of the name) by an extend_super-marked one;
+(* cls_kf41: plain def directly followed (as second definition of the name) by an extend_super-marked one
+   (crashed before the repair of KF-41; now an instance of cls_kf42);
    KF-42: an extend_super mark on a definition that is not the first of its name in the body *)
 Definition cls_kf41 (cur0 : attr) (body : list def) : bool :=
   match cur0, body with
